@@ -136,6 +136,7 @@ def make (values probas : List α) (prec : α) : Except Err (SimpleSt α) :=
   let rec ins : List (α × α) → TMap α → Option (TMap α)
     | [], m => some m
     | (v, p) :: rest, m => if (TMap.find? prec v m).isSome then none else ins rest (TMap.assign prec v p m)
+  if values.length != probas.length then .error .bpp else   -- "must have the same size" (cpp:58-61)
   match ins (values.zip probas) [] with
   | none => .error .bpp         -- "two given values are equal"
   | some m =>
